@@ -1,2 +1,923 @@
-(* C12 — stub *)
+(* C12 -- proofs.  Plan: (1) over a reliable sink the concrete model (bufio + BufferedWriteSyncer,
+   fuel, outcome scripts) is shown equal, step by step, to an abstract machine on
+   (buffered bytes, phase) [step_abs]; (2) the property's invariants (whole-write grouping,
+   bound, sync postcondition, lifecycle, acceptance by the executable oracle) are proved of
+   the abstract machine by induction over histories; (3) for arbitrary outcome scripts the
+   stream-integrity invariant is proved directly on the concrete model [bflush_weak,
+   bwrite_weak, step_weak]; (4) witnesses for the failing variants; (5) the wire theorem. *)
+From Coq Require Import List ZArith Bool Arith Lia.
+From Coq.Strings Require Import Byte.
+Import ListNotations.
 From Zap Require Import Base.Wire C12.Model.
+
+Lemma eff_size_pos c : 0 < eff_size c.
+Proof. unfold eff_size. destruct (c =? 0)%Z eqn:E0; [lia|]. destruct (c <? 0)%Z eqn:E1; [lia|].
+  apply Z.eqb_neq in E0. apply Z.ltb_ge in E1. lia. Qed.
+Global Opaque eff_size.
+
+Lemma is_nil_true {A} (l : list A) : is_nil l = true <-> l = [].
+Proof. destruct l; cbn; split; congruence. Qed.
+Lemma is_nil_false {A} (l : list A) : is_nil l = false <-> l <> [].
+Proof. destruct l; cbn; split; congruence. Qed.
+
+(* ---------- reliable sink ---------- *)
+Lemma reliable_tl k : reliable k = true -> reliable (tl k) = true.
+Proof. destruct k as [|o r]; cbn; [auto|]. intros H. apply andb_true_iff in H. tauto. Qed.
+Lemma next_out_rel k : reliable k = true -> o_short (next_out k) = None /\ o_err (next_out k) = false.
+Proof. destruct k as [|o r]; cbn; [auto|]. intros H. apply andb_true_iff in H as [H _].
+  unfold is_ok in H. destruct (o_short o); [discriminate|]. split; [reflexivity|]. now apply negb_true_iff in H. Qed.
+Lemma sink_write_rel k p : reliable k = true -> sink_write k p = (length p, 0, [EW p (length p)], tl k).
+Proof. intros H. unfold sink_write. destruct (next_out_rel k H) as [-> ->]. reflexivity. Qed.
+Lemma sink_sync_rel k : reliable k = true -> sink_sync k = (0, [ES], tl k).
+Proof. intros H. unfold sink_sync. destruct (next_out_rel k H) as [_ ->]. reflexivity. Qed.
+
+Definition clr (b : bufio) : bufio := set_buf b [] 0.
+Definition flush_evs (x : bytes) : list ev := if is_nil x then [] else [EW x (length x)].
+
+Lemma bflush_rel b k : berr b = 0 -> reliable k = true ->
+  exists k', reliable k' = true /\ bflush b k = (0, clr b, flush_evs (buf b), k').
+Proof. intros He Hk. unfold bflush, flush_evs. rewrite He. cbn [Nat.eqb negb].
+  destruct (is_nil (buf b)) eqn:E.
+  - exists k. split; [exact Hk|]. apply is_nil_true in E. unfold clr, set_buf. destruct b as [sz bf be]; cbn in *. now subst.
+  - rewrite (sink_write_rel k (buf b) Hk). rewrite Nat.ltb_irrefl. cbn [andb Nat.eqb].
+    exists (tl k). split; [now apply reliable_tl|reflexivity]. Qed.
+
+Lemma bwrite_fits f b k p : berr b = 0 -> length p <= avail b ->
+  bwrite (S f) b k p = (length p, 0, set_buf b (buf b ++ p) 0, [], k).
+Proof. intros He Hl. cbn [bwrite]. apply Nat.ltb_ge in Hl. rewrite Hl, He. reflexivity. Qed.
+
+Lemma bwrite_big f b k p : berr b = 0 -> buf b = [] -> avail b < length p -> reliable k = true ->
+  bwrite (S (S f)) b k p = (length p, 0, clr b, [EW p (length p)], tl k).
+Proof. intros He Hb Hl Hk. cbn [bwrite]. apply Nat.ltb_lt in Hl. rewrite Hl, He, Hb. cbn [andb Nat.eqb is_nil].
+  rewrite (sink_write_rel k p Hk). rewrite skipn_all. cbn [length set_buf size buf berr avail].
+  cbn [Nat.ltb Nat.leb andb Nat.eqb negb app]. unfold clr, set_buf. rewrite Nat.add_0_r. reflexivity. Qed.
+Definition mkb (sz : nat) (x : bytes) : bufio := {| size := sz; buf := x; berr := 0 |}.
+Lemma mkb_eta b : berr b = 0 -> b = mkb (size b) (buf b).
+Proof. destruct b; cbn; intros ->; reflexivity. Qed.
+
+Definition RInv (s : st) : Prop :=
+  reliable (k s) = true /\ berr (w s) = 0 /\ length (buf (w s)) <= size (w s) /\
+  (inited s = false -> buf (w s) = [] /\ stopped s = false /\ loop s = false) /\
+  (inited s = true -> size (w s) = eff_size (cfg s) /\ loop s = negb (stopped s)) /\
+  (stopped s = true -> buf (w s) = []).
+
+Definition s_init (s : st) : st := if inited s then s else initialize s.
+Lemma s_init_inv s : RInv s -> RInv (s_init s) /\ inited (s_init s) = true /\ cfg (s_init s) = cfg s /\
+  stopped (s_init s) = stopped s /\ k (s_init s) = k s /\ buf (w (s_init s)) = buf (w s).
+Proof. intros HR. pose proof HR as (Hk & He & Hl & Hu & Hi & Hs). unfold s_init. destruct (inited s) eqn:E.
+  - split; [exact HR|]. repeat split; auto.
+  - destruct (Hu eq_refl) as (Hb & Hst & Hlo). split.
+    + unfold RInv, initialize. cbn. rewrite Hst. repeat split; auto; try lia; try discriminate.
+    + unfold initialize. cbn. repeat split; auto. Qed.
+
+(* what Write does, spelled out on (size, buffered bytes, stopped) *)
+Definition w_pre (sz : nat) (b bs : bytes) : bool := (sz - length b <? length bs) && negb (is_nil b).
+Definition w_b1 sz b bs : bytes := if w_pre sz b bs then [] else b.
+Definition w_big sz b bs : bool := sz - length (w_b1 sz b bs) <? length bs.
+Definition w_b2 sz b bs : bytes := if w_big sz b bs then [] else w_b1 sz b bs ++ bs.
+Definition w_evs (stp : bool) sz b bs : list ev :=
+  flush_evs (if w_pre sz b bs then b else []) ++ (if w_big sz b bs then [EW bs (length bs)] else []) ++
+  (if stp then flush_evs (w_b2 sz b bs) else []).
+Definition w_b3 (stp : bool) sz b bs : bytes := if stp then [] else w_b2 sz b bs.
+
+Lemma write_rel s bs : RInv s ->
+  let s0 := s_init s in let sz := size (w s0) in let b := buf (w s0) in
+  exists k', reliable k' = true /\
+    bws_write true s bs = (upd s0 (mkb sz (w_b3 (stopped s0) sz b bs)) k', RW (length bs) 0, w_evs (stopped s0) sz b bs).
+Proof. intros HR. destruct (s_init_inv s HR) as (HR0 & Hin & _). intros s0 sz b. fold s0 in HR0, Hin.
+  destruct HR0 as (Hk & He & Hl & _ & _ & Hs).
+  unfold bws_write. fold (s_init s). fold s0. unfold avail. fold sz b. fold (w_pre sz b bs).
+  assert (Hw : w s0 = mkb sz b) by (apply mkb_eta; exact He).
+  (* stage 1: optional pre-flush *)
+  assert (S1 : exists k1, reliable k1 = true /\
+     (if w_pre sz b bs then bflush (w s0) (k s0) else (0, w s0, [], k s0)) =
+       (0, mkb sz (w_b1 sz b bs), flush_evs (if w_pre sz b bs then b else []), k1)).
+  { unfold w_b1. destruct (w_pre sz b bs) eqn:P.
+    - destruct (bflush_rel (w s0) (k s0) He Hk) as (k1 & Hk1 & ->). exists k1. split; [exact Hk1|]. reflexivity.
+    - exists (k s0). split; [exact Hk|]. now rewrite Hw. }
+  destruct S1 as (k1 & Hk1 & ->). cbn [Nat.eqb negb].
+  (* stage 2: bufio.Write on (size, b1) where b1 = [] or bs fits *)
+  assert (S2 : exists k2, reliable k2 = true /\
+     bwrite (wfuel bs) (mkb sz (w_b1 sz b bs)) k1 bs =
+       (length bs, 0, mkb sz (w_b2 sz b bs), (if w_big sz b bs then [EW bs (length bs)] else []), k2)).
+  { unfold wfuel, w_b2. fold (w_big sz b bs). unfold w_big. destruct (sz - length (w_b1 sz b bs) <? length bs) eqn:G.
+    - assert (Hb1 : w_b1 sz b bs = []).
+      { unfold w_b1 in *. destruct (w_pre sz b bs) eqn:P; [reflexivity|]. unfold w_pre in P. fold b in Hl.
+        apply andb_false_iff in P as [P|P]; [rewrite P in G; discriminate|]. apply negb_false_iff, is_nil_true in P. exact P. }
+      rewrite Hb1 in *. exists (tl k1). split; [now apply reliable_tl|].
+      apply Nat.ltb_lt in G. rewrite bwrite_big; auto.
+    - exists k1. split; [exact Hk1|]. apply Nat.ltb_ge in G. rewrite bwrite_fits; auto. }
+  destruct S2 as (k2 & Hk2 & ->). cbn [Nat.eqb andb]. unfold w_evs, w_b3.
+  destruct (stopped s0) eqn:St; cbn [andb].
+  - destruct (bflush_rel (mkb sz (w_b2 sz b bs)) k2 eq_refl Hk2) as (k3 & Hk3 & ->). exists k3. split; [exact Hk3|]. reflexivity.
+  - exists k2. split; [exact Hk2|]. now rewrite app_nil_r. Qed.
+Definition sync_evs (b : bytes) : list ev := flush_evs b ++ [ES].
+
+Lemma sync_rel s : RInv s -> exists k', reliable k' = true /\
+  bws_sync s = (0, upd s (mkb (size (w s)) []) k', sync_evs (buf (w s))).
+Proof. intros (Hk & He & Hl & Hu & Hi & Hs). unfold bws_sync, sync_evs. destruct (inited s) eqn:E.
+  - destruct (bflush_rel (w s) (k s) He Hk) as (k1 & Hk1 & ->). rewrite (sink_sync_rel k1 Hk1).
+    exists (tl k1). split; [now apply reliable_tl|reflexivity].
+  - destruct (Hu eq_refl) as (Hb & _). rewrite (sink_sync_rel (k s) Hk). exists (tl (k s)). split; [now apply reliable_tl|].
+    rewrite Hb. cbn. f_equal. f_equal. f_equal. rewrite (mkb_eta (w s) He) at 1. now rewrite Hb. Qed.
+
+(* ---------- the abstract machine: (buffered bytes, phase) ---------- *)
+Definition phase_of (s : st) : phase := if negb (inited s) then Fresh else if stopped s then Stopped else Running.
+Definition is_stopped (p : phase) : bool := match p with Stopped => true | _ => false end.
+Definition astep (sz : nat) (a : bytes * phase) (o : op) : (bytes * phase) * res * list ev :=
+  let '(b, p) := a in
+  match o with
+  | Write bs => ((w_b3 (is_stopped p) sz b bs, match p with Fresh => Running | _ => p end),
+                 RW (length bs) 0, w_evs (is_stopped p) sz b bs)
+  | Sync => (([], p), RS 0, sync_evs b)
+  | Tick => if is_running p then (([], p), RT true, sync_evs b) else ((b, p), RT false, [])
+  | Stop => match p with
+            | Fresh => ((b, p), RStop 0, [])
+            | Stopped => ((b, p), RStop 0, [ES])
+            | Running => (([], Stopped), RStop 0, sync_evs b)
+            end
+  end.
+Fixpoint arun (sz : nat) (a : bytes * phase) (ops : list op) : (bytes * phase) * list (res * list ev) :=
+  match ops with
+  | [] => (a, [])
+  | o :: r => let '(a1, rs, es) := astep sz a o in let '(a2, tr) := arun sz a1 r in (a2, (rs, es) :: tr)
+  end.
+Definition abs (s : st) : bytes * phase := (buf (w s), phase_of s).
+
+Ltac rinv Hu Hi :=
+  repeat split; auto; try lia; try discriminate;
+  try (match goal with H : inited _ = false |- _ => destruct (Hu H) as (? & ? & ?); first [now auto | congruence] end);
+  try (match goal with H : inited _ = true |- _ => destruct (Hi H) as (? & ?); first [now auto | congruence] end).
+
+Lemma step_abs s o : RInv s ->
+  let '(s1, r, es) := step s o in
+  RInv s1 /\ cfg s1 = cfg s /\ astep (eff_size (cfg s)) (abs s) o = (abs s1, r, es).
+Proof. intros HR. pose proof HR as (Hk & He & Hl & Hu & Hi & Hs). destruct o as [bs| | |]; unfold step; cbn [step_gen].
+  - (* Write *)
+    destruct (s_init_inv s HR) as (HR0 & Hin & Hc & Hst & Hk0 & Hb0).
+    destruct (write_rel s bs HR) as (k' & Hk' & ->).
+    pose proof HR0 as (_ & _ & Hl0 & _ & Hi0 & Hs0). destruct (Hi0 Hin) as (Hsz & Hlo).
+    rewrite Hc in Hsz. rewrite Hsz, Hb0, Hst. rewrite Hb0, Hsz in Hl0.
+    assert (Hph : is_stopped (phase_of s) = stopped s).
+    { unfold phase_of. destruct (inited s) eqn:E; cbn; [destruct (stopped s); reflexivity|]. destruct (Hu eq_refl) as (_ & -> & _). reflexivity. }
+    assert (Hbnd : length (w_b3 (stopped s) (eff_size (cfg s)) (buf (w s)) bs) <= eff_size (cfg s)).
+    { unfold w_b3. destruct (stopped s); [cbn; lia|]. unfold w_b2, w_big. 
+      destruct (eff_size (cfg s) - length (w_b1 (eff_size (cfg s)) (buf (w s)) bs) <? length bs) eqn:G; [cbn; lia|].
+      apply Nat.ltb_ge in G. rewrite app_length. 
+      assert (length (w_b1 (eff_size (cfg s)) (buf (w s)) bs) <= eff_size (cfg s)); [|lia].
+      unfold w_b1. destruct (w_pre _ _ _); [cbn; lia|]. exact Hl0. }
+    split; [|split].
+    + unfold RInv, upd; cbn. rewrite Hin, Hst. repeat split; auto; try discriminate.
+      * now rewrite Hc.
+      * now rewrite Hlo, Hst.
+      * intros St. unfold w_b3. now rewrite St.
+    + cbn. exact Hc.
+    + unfold abs, astep. cbn [upd w buf mkb]. rewrite Hph. f_equal. f_equal. f_equal.
+      unfold phase_of. cbn [upd inited stopped]. rewrite Hin, Hst. cbn.
+      destruct (inited s) eqn:E; cbn; [destruct (stopped s); reflexivity|]. destruct (Hu eq_refl) as (_ & -> & _). reflexivity.
+  - (* Sync *)
+    destruct (sync_rel s HR) as (k' & Hk' & ->). split; [|split; [reflexivity|]].
+    + unfold RInv, upd; cbn. rinv Hu Hi.
+    + reflexivity.
+  - (* Tick *)
+    assert (Hrun : is_running (phase_of s) = loop s).
+    { unfold phase_of. destruct (inited s) eqn:E; cbn.
+      - destruct (Hi eq_refl) as (_ & ->). destruct (stopped s); reflexivity.
+      - destruct (Hu eq_refl) as (_ & _ & ->). reflexivity. }
+    unfold abs, astep. rewrite Hrun. destruct (loop s) eqn:L.
+    + destruct (sync_rel s HR) as (k' & Hk' & ->). split; [|split; [reflexivity|]].
+      * unfold RInv, upd; cbn. rinv Hu Hi.
+      * reflexivity.
+    + split; [exact HR|split; reflexivity].
+  - (* Stop *)
+    unfold bws_stop, abs, astep, phase_of. destruct (inited s) eqn:E; cbn [negb].
+    + destruct (Hi eq_refl) as (Hsz & Hlo). destruct (stopped s) eqn:St.
+      * rewrite (sink_sync_rel (k s) Hk). split; [|split; [reflexivity|]].
+        -- unfold RInv, upd; cbn. rewrite E, St. repeat split; auto; try discriminate. now apply reliable_tl.
+        -- cbn. rewrite E, St. reflexivity.
+      * set (s1 := {| cfg := cfg s; inited := true; stopped := true; loop := false; w := w s; k := k s |}).
+        assert (HR1 : RInv s1 -> True) by auto.
+        assert (Hs1 : exists k', reliable k' = true /\ bws_sync s1 = (0, upd s1 (mkb (size (w s)) []) k', sync_evs (buf (w s)))).
+        { unfold bws_sync, sync_evs, s1. cbn [inited w k].
+          destruct (bflush_rel (w s) (k s) He Hk) as (k1 & Hk1 & ->). rewrite (sink_sync_rel k1 Hk1).
+          exists (tl k1). split; [now apply reliable_tl|reflexivity]. }
+        destruct Hs1 as (k' & Hk' & ->). split; [|split; [reflexivity|]].
+        -- unfold RInv, upd, s1; cbn. repeat split; auto; try lia; try discriminate.
+        -- reflexivity.
+    + split; [exact HR|split; [reflexivity|]]. unfold abs, phase_of. rewrite E. reflexivity. Qed.
+Lemma run_abs ops : forall s, RInv s ->
+  let '(s1, tr) := run s ops in
+  RInv s1 /\ cfg s1 = cfg s /\ arun (eff_size (cfg s)) (abs s) ops = (abs s1, tr).
+Proof. induction ops as [|o r IH]; intros s HR; unfold run in *; cbn [run_gen arun]; [auto|].
+  pose proof (step_abs s o HR) as H. unfold step in H. destruct (step_gen true s o) as [[s1 rs] es].
+  destruct H as (HR1 & Hc & Ha). specialize (IH s1 HR1). destruct (run_gen true s1 r) as [s2 tr].
+  destruct IH as (HR2 & Hc2 & Ha2). rewrite Ha. rewrite Hc in Ha2. rewrite Ha2. split; [exact HR2|split; [congruence|reflexivity]]. Qed.
+
+Lemma init_RInv c outs : reliable outs = true -> RInv (init c outs).
+Proof. intros H. unfold RInv, init; cbn. repeat split; auto; discriminate. Qed.
+
+(* ---------- abstract invariants ---------- *)
+Definition AInv (sz : nat) (a : bytes * phase) : Prop :=
+  length (fst a) <= sz /\ (snd a <> Running -> fst a = []).
+Lemma w_big_b1 sz b bs : w_big sz b bs = true -> w_b1 sz b bs = [].
+Proof. unfold w_big, w_b1, w_pre. destruct ((sz - length b <? length bs) && negb (is_nil b)) eqn:P; [reflexivity|].
+  intros G. apply andb_false_iff in P as [P|P]; [congruence|]. now apply negb_false_iff, is_nil_true in P. Qed.
+Lemma w_b2_len sz b bs : length b <= sz -> length (w_b2 sz b bs) <= sz.
+Proof. intros Hl. unfold w_b2. destruct (w_big sz b bs) eqn:G; [cbn; lia|]. unfold w_big in G. apply Nat.ltb_ge in G.
+  rewrite app_length. assert (length (w_b1 sz b bs) <= sz); [|lia]. unfold w_b1. destruct (w_pre sz b bs); cbn; lia. Qed.
+Lemma astep_AInv sz a o : AInv sz a -> AInv sz (fst (fst (astep sz a o))).
+Proof. destruct a as [b p]. intros [Hl Hp]; cbn [fst snd] in *. destruct o as [bs| | |]; cbn [astep].
+  - cbn [fst snd]. split.
+    + unfold w_b3. destruct (is_stopped p); [cbn; lia|]. now apply w_b2_len.
+    + unfold w_b3. destruct p; cbn; tauto.
+  - unfold AInv; cbn [fst snd length]. split; [apply Nat.le_0_l|auto].
+  - destruct (is_running p) eqn:R; unfold AInv; cbn [fst snd length]; [split; [apply Nat.le_0_l|auto]|split; auto].
+  - destruct p; unfold AInv; cbn [fst snd length]; split; auto; apply Nat.le_0_l. Qed.
+
+(* ---------- (A) whole-write grouping ---------- *)
+Lemma received_app a b : received (a ++ b) = received a ++ received b.
+Proof. unfold received. now rewrite map_app, concat_app. Qed.
+Lemma accepted_app a b : accepted (a ++ b) = accepted a ++ accepted b.
+Proof. unfold accepted. now rewrite map_app, concat_app. Qed.
+
+
+Lemma Grp_flush acc sw b : Grp acc sw b -> Grp acc (sw ++ received (flush_evs b)) [].
+Proof. intros (g & r & Ha & Hs & Hb). unfold flush_evs. destruct (is_nil b) eqn:E.
+  - apply is_nil_true in E. subst b. exists g, r. cbn. rewrite app_nil_r. auto.
+  - exists (g ++ [r]), []. unfold received; cbn. rewrite firstn_all, concat_app, map_app. cbn.
+    rewrite !app_nil_r. subst. auto. Qed.
+Lemma Grp_append acc sw b bs : Grp acc sw b -> Grp (acc ++ [bs]) sw (b ++ bs).
+Proof. intros (g & r & Ha & Hs & Hb). exists g, (r ++ [bs]). rewrite concat_app. cbn. rewrite app_nil_r.
+  subst. rewrite app_assoc. auto. Qed.
+Lemma Grp_direct acc sw bs : Grp acc sw [] -> Grp (acc ++ [bs]) (sw ++ received [EW bs (length bs)]) [].
+Proof. intros (g & r & Ha & Hs & Hb). exists (g ++ [r ++ [bs]]), []. unfold received; cbn.
+  rewrite firstn_all, concat_app, map_app. cbn. rewrite !app_nil_r, concat_app. cbn. rewrite app_nil_r, <- Hb. cbn.
+  subst. rewrite app_assoc. auto. Qed.
+
+Lemma astep_Grp sz a o acc sw : Grp acc sw (fst a) ->
+  let '(a1, r, es) := astep sz a o in Grp (acc ++ acc1 o) (sw ++ received es) (fst a1).
+Proof. destruct a as [b p]. cbn [fst]. intros HG.
+  assert (Hsync : Grp (acc ++ []) (sw ++ received (sync_evs b)) []).
+  { unfold sync_evs. rewrite received_app, app_nil_r. unfold received at 2. cbn. rewrite app_nil_r. now apply Grp_flush. }
+  destruct o as [bs| | |]; cbn [astep acc1 fst].
+  - unfold w_evs, w_b3. rewrite !received_app, !app_assoc.
+    (* stage 1 *)
+    assert (S1 : Grp acc (sw ++ received (flush_evs (if w_pre sz b bs then b else []))) (w_b1 sz b bs)).
+    { unfold w_b1. destruct (w_pre sz b bs); [now apply Grp_flush|]. cbn. unfold received; cbn. now rewrite app_nil_r. }
+    (* stage 2 *)
+    assert (S2 : Grp (acc ++ [bs]) ((sw ++ received (flush_evs (if w_pre sz b bs then b else []))) ++
+                   received (if w_big sz b bs then [EW bs (length bs)] else [])) (w_b2 sz b bs)).
+    { unfold w_b2. destruct (w_big sz b bs) eqn:G.
+      - rewrite (w_big_b1 _ _ _ G) in S1. now apply Grp_direct.
+      - unfold received at 2; cbn. rewrite app_nil_r. now apply Grp_append. }
+    destruct (is_stopped p).
+    + now apply Grp_flush.
+    + unfold received at 3; cbn. now rewrite app_nil_r.
+  - exact Hsync.
+  - destruct (is_running p); cbn [fst]; [exact Hsync|]. unfold received; cbn. now rewrite !app_nil_r.
+  - destruct p; cbn [fst]; try exact Hsync; unfold received; cbn; now rewrite !app_nil_r. Qed.
+
+Lemma arun_Grp sz ops : forall a acc sw, Grp acc sw (fst a) ->
+  let '(a1, tr) := arun sz a ops in Grp (acc ++ accepted ops) (sw ++ received (all_evs tr)) (fst a1).
+Proof. induction ops as [|o r IH]; intros a acc sw HG; cbn [arun].
+  - unfold accepted, all_evs, received; cbn. now rewrite !app_nil_r.
+  - pose proof (astep_Grp sz a o acc sw HG) as H. destruct (astep sz a o) as [[a1 rs] es].
+    specialize (IH a1 _ _ H). destruct (arun sz a1 r) as [a2 tr].
+    unfold accepted, all_evs in *. cbn [map concat snd]. rewrite received_app, !app_assoc. exact IH. Qed.
+(* ---------- (C) the executable oracle accepts the abstract machine ---------- *)
+Lemma bytes_eqb_refl a : bytes_eqb a a = true.
+Proof. now apply bytes_eqb_eq. Qed.
+Lemma strip_nil q0 : strip q0 [] = Some q0.
+Proof. destruct q0; reflexivity. Qed.
+Lemma firstn_app_len {A} (a b : list A) : firstn (length a) (a ++ b) = a.
+Proof. rewrite firstn_app, firstn_all, Nat.sub_diag. cbn. now rewrite app_nil_r. Qed.
+Lemma skipn_app_len {A} (a b : list A) : skipn (length a) (a ++ b) = b.
+Proof. rewrite skipn_app, skipn_all, Nat.sub_diag. reflexivity. Qed.
+
+Lemma strip_concat q1 q2 : forall x, concat q1 = x ->
+  exists q', strip (q1 ++ q2) x = Some (q' ++ q2) /\ concat q' = [].
+Proof. induction q1 as [|b r IH]; intros x Hx.
+  - cbn in Hx. subst x. exists []. split; [apply strip_nil|reflexivity].
+  - destruct (is_nil x) eqn:E.
+    + apply is_nil_true in E. subst x. exists (b :: r). split; [|exact E]. rewrite E. apply strip_nil.
+    + cbn [app strip]. rewrite E. cbn in Hx. subst x.
+      rewrite app_length, firstn_app_len, skipn_app_len, bytes_eqb_refl.
+      assert (L : (length b <=? length b + length (concat r)) = true) by (apply Nat.leb_le; lia).
+      rewrite L. cbn [andb]. apply IH. reflexivity. Qed.
+
+Lemma all_empty_concat q0 : all_empty q0 = true <-> concat q0 = [].
+Proof. induction q0 as [|b r IH]; cbn; [tauto|]. rewrite andb_true_iff, IH, is_nil_true. split.
+  - intros [-> ->]. reflexivity.
+  - intros H. apply app_eq_nil in H. tauto. Qed.
+
+Lemma deliver_flush q1 q2 x d : concat q1 = x ->
+  exists q' d', concat q' = [] /\ forall rest, deliver (q1 ++ q2) d (flush_evs x ++ rest) = deliver (q' ++ q2) d' rest.
+Proof. intros Hx. unfold flush_evs. destruct (is_nil x) eqn:E.
+  - apply is_nil_true in E. subst x. exists q1, d. split; [exact E|reflexivity].
+  - destruct (strip_concat q1 q2 x Hx) as (q' & Hs & Hq). exists q', true. split; [exact Hq|]. intros rest.
+    cbn [app deliver]. rewrite Nat.eqb_refl, Hs. reflexivity. Qed.
+
+Definition OInv (os : ost) (a : bytes * phase) : Prop :=
+  concat (q os) = fst a /\ ph os = snd a /\ (snd a = Fresh -> dirty os = false).
+
+Lemma flushed_sync qs d b p : concat qs = b ->
+  exists q', concat q' = [] /\ flushed (deliver qs d (sync_evs b)) p = Some {| q := q'; dirty := false; ph := p |}.
+Proof. intros Hb. unfold sync_evs. rewrite <- (app_nil_r qs).
+  destruct (deliver_flush qs [] b d Hb) as (q' & d' & Hq & ->). cbn [deliver]. rewrite app_nil_r.
+  exists q'. split; [exact Hq|]. unfold flushed. apply all_empty_concat in Hq. rewrite Hq. reflexivity. Qed.
+
+Lemma astep_oracle sz a o os : AInv sz a -> OInv os a ->
+  let '(a1, r, es) := astep sz a o in exists os1, ostep sz os o r es = Some os1 /\ OInv os1 a1.
+Proof. destruct a as [b p]. intros HA (Hq & Hp & Hd). pose proof (astep_AInv sz (b, p) o HA) as HA1.
+  destruct HA as [Hl Hnr]. cbn [fst snd] in *.
+  destruct o as [bs| | |]; cbn [astep] in *.
+  - (* Write *)
+    cbn [ostep fst snd] in *. rewrite Nat.eqb_refl. cbn [andb Nat.eqb].
+    unfold w_evs.
+    (* stage 1: optional pre-flush *)
+    assert (S1 : exists qa da, concat qa = w_b1 sz b bs /\ forall rest,
+       deliver (q os ++ [bs]) (dirty os) (flush_evs (if w_pre sz b bs then b else []) ++ rest) = deliver (qa ++ [bs]) da rest).
+    { unfold w_b1. destruct (w_pre sz b bs).
+      - destruct (deliver_flush (q os) [bs] b (dirty os) Hq) as (q' & d' & Hq' & H'). exists q', d'. auto.
+      - exists (q os), (dirty os). split; [exact Hq|]. intros rest. reflexivity. }
+    destruct S1 as (qa & da & Hqa & ->).
+    (* stage 2: direct write of bs, or append *)
+    assert (S2 : exists qb db, concat qb = w_b2 sz b bs /\ forall rest,
+       deliver (qa ++ [bs]) da ((if w_big sz b bs then [EW bs (length bs)] else []) ++ rest) = deliver qb db rest).
+    { unfold w_b2. destruct (w_big sz b bs) eqn:G.
+      - rewrite (w_big_b1 _ _ _ G) in Hqa.
+        assert (Hc : concat (qa ++ [bs]) = bs) by (rewrite concat_app, Hqa; cbn; now rewrite app_nil_r).
+        destruct (strip_concat (qa ++ [bs]) [] bs Hc) as (q' & Hs & Hq'). rewrite !app_nil_r in Hs.
+        exists q', true. split; [exact Hq'|]. intros rest. cbn [app deliver]. now rewrite Nat.eqb_refl, Hs.
+      - exists (qa ++ [bs]), da. split; [|reflexivity]. rewrite concat_app, Hqa. cbn. now rewrite app_nil_r. }
+    destruct S2 as (qb & db & Hqb & ->).
+    (* stage 3: flush when stopped *)
+    assert (S3 : exists qc dc, concat qc = w_b3 (is_stopped p) sz b bs /\
+       deliver qb db (if is_stopped p then flush_evs (w_b2 sz b bs) else []) = Some (qc, dc)).
+    { unfold w_b3. destruct (is_stopped p).
+      - destruct (deliver_flush qb [] _ db Hqb) as (q' & d' & Hq' & H'). specialize (H' []).
+        rewrite !app_nil_r in H'. exists q', d'. split; [exact Hq'|]. rewrite H'. reflexivity.
+      - exists qb, db. split; [exact Hqb|reflexivity]. }
+    destruct S3 as (qc & dc & Hqc & ->).
+    destruct HA1 as [Hl1 _]. cbn [fst] in Hl1. unfold qlen. rewrite Hqc.
+    apply Nat.leb_le in Hl1. rewrite Hl1. eexists. split; [reflexivity|].
+    unfold OInv; cbn [q dirty ph fst snd]. rewrite Hp. split; [exact Hqc|split; [destruct p; reflexivity|]].
+    destruct p; discriminate.
+  - (* Sync *)
+    cbn [ostep Nat.eqb]. destruct (flushed_sync (q os) (dirty os) b (ph os) Hq) as (qf & Hqf & ->). eexists. split; [reflexivity|].
+    unfold OInv; cbn. auto.
+  - (* Tick *)
+    cbn [ostep]. rewrite Hp. destruct p; cbn [is_running].
+    + eexists. split; [reflexivity|]. unfold OInv; cbn; auto.
+    + destruct (flushed_sync (q os) (dirty os) b Running Hq) as (qf & Hqf & ->). eexists. split; [reflexivity|].
+      unfold OInv; cbn. repeat split; auto; try discriminate.
+    + eexists. split; [reflexivity|]. unfold OInv; cbn; auto.
+  - (* Stop *)
+    cbn [ostep Nat.eqb]. rewrite Hp. destruct p.
+    + cbn [deliver]. unfold flushed. rewrite (Hd eq_refl). 
+      assert (E : all_empty (q os) = true) by (apply all_empty_concat; rewrite Hq; apply Hnr; discriminate).
+      rewrite E. eexists. split; [reflexivity|]. unfold OInv; cbn. repeat split; auto; try (rewrite Hq; reflexivity); try discriminate.
+    + destruct (flushed_sync (q os) (dirty os) b Stopped Hq) as (qf & Hqf & ->). eexists. split; [reflexivity|].
+      unfold OInv; cbn. repeat split; auto; try discriminate.
+    + cbn [deliver]. unfold flushed.
+      assert (E : all_empty (q os) = true) by (apply all_empty_concat; rewrite Hq; apply Hnr; discriminate).
+      rewrite E. eexists. split; [reflexivity|]. unfold OInv; cbn. repeat split; auto; try (rewrite Hq; reflexivity); try discriminate.
+Qed.
+Lemma arun_oracle sz ops : forall a os, AInv sz a -> OInv os a ->
+  let '(a1, tr) := arun sz a ops in exists os1, orun sz os ops tr = Some os1 /\ OInv os1 a1 /\ AInv sz a1.
+Proof. induction ops as [|o r IH]; intros a os HA HO; cbn [arun orun].
+  - exists os. auto.
+  - pose proof (astep_oracle sz a o os HA HO) as H. pose proof (astep_AInv sz a o HA) as HA1.
+    destruct (astep sz a o) as [[a1 rs] es]. cbn [fst] in HA1. destruct H as (os1 & Ho & HO1).
+    specialize (IH a1 os1 HA1 HO1). destruct (arun sz a1 r) as [a2 tr]. cbn [orun]. rewrite Ho. exact IH. Qed.
+
+Lemma loop_phase s : RInv s -> is_running (phase_of s) = loop s.
+Proof. intros (_ & _ & _ & Hu & Hi & _). unfold phase_of. destruct (inited s) eqn:E; cbn.
+  - destruct (Hi eq_refl) as (_ & ->). destruct (stopped s); reflexivity.
+  - destruct (Hu eq_refl) as (_ & _ & ->). reflexivity. Qed.
+
+Lemma abs_init c outs : abs (init c outs) = ([], Fresh).
+Proof. reflexivity. Qed.
+Lemma AInv_init sz : AInv sz ([], Fresh).
+Proof. split; cbn; [apply Nat.le_0_l|auto]. Qed.
+
+Lemma strong_ok_run c outs ops : reliable outs = true ->
+  let '(s, tr) := run (init c outs) ops in strong_ok c ops tr (loop s) = true.
+Proof. intros Hr. pose proof (run_abs ops (init c outs) (init_RInv c outs Hr)) as H.
+  destruct (run (init c outs) ops) as [s tr]. destruct H as (HR & Hc & Ha). cbn [init cfg] in Ha. rewrite abs_init in Ha.
+  assert (HO : OInv oinit ([], Fresh)) by (unfold OInv; cbn; auto).
+  pose proof (arun_oracle (eff_size c) ops ([], Fresh) oinit (AInv_init _) HO) as H. rewrite Ha in H.
+  destruct H as (os1 & Ho & (_ & Hp & _) & _). unfold strong_ok. rewrite Ho. cbn [abs snd] in Hp. rewrite Hp.
+  rewrite (loop_phase s HR). apply eqb_reflx. Qed.
+
+(* ---------- (B) Sync / processed tick / Stop: nothing held back, sink synced after its last write ---------- *)
+Lemma dirty_of_app d a b : dirty_of d (a ++ b) = dirty_of (dirty_of d a) b.
+Proof. revert d. induction a as [|[p n|] r IH]; intros d; cbn; auto. Qed.
+Lemma dirty_sync d b : dirty_of d (sync_evs b) = false.
+Proof. unfold sync_evs. now rewrite dirty_of_app. Qed.
+
+Definition FInv (d : bool) (a : bytes * phase) : Prop := snd a = Fresh -> d = false.
+Lemma astep_FInv sz a o d : AInv sz a -> FInv d a ->
+  let '(a1, r, es) := astep sz a o in FInv (dirty_of d es) a1.
+Proof. destruct a as [b p]. intros [_ Hnr] HF. cbn [fst snd] in *. unfold FInv in *. cbn [snd] in *.
+  destruct o as [bs| | |]; cbn [astep].
+  - cbn [snd]. destruct p; discriminate.
+  - cbn [snd]. intros _. apply dirty_sync.
+  - destruct (is_running p) eqn:R; cbn [snd]; [intros _; apply dirty_sync|exact HF].
+  - destruct p; cbn [snd]; auto; discriminate. Qed.
+Lemma arun_FInv sz ops : forall a d, AInv sz a -> FInv d a ->
+  let '(a1, tr) := arun sz a ops in FInv (dirty_of d (all_evs tr)) a1 /\ AInv sz a1.
+Proof. induction ops as [|o r IH]; intros a d HA HF; cbn [arun]; [cbn; auto|].
+  pose proof (astep_FInv sz a o d HA HF) as H. pose proof (astep_AInv sz a o HA) as HA1.
+  destruct (astep sz a o) as [[a1 rs] es]. cbn [fst] in HA1. specialize (IH a1 _ HA1 H).
+  destruct (arun sz a1 r) as [a2 tr]. unfold all_evs. cbn [map concat snd]. rewrite dirty_of_app. exact IH. Qed.
+
+Lemma astep_sync_post sz a o d : AInv sz a -> FInv d a -> flushing o (is_running (snd a)) = true ->
+  let '(a1, r, es) := astep sz a o in fst a1 = [] /\ dirty_of d es = false.
+Proof. destruct a as [b p]. intros [_ Hnr] HF Hfl. cbn [fst snd] in *. unfold FInv in HF; cbn [snd] in HF.
+  destruct o as [bs| | |]; cbn [astep flushing] in *; try discriminate.
+  - cbn. split; [reflexivity|apply dirty_sync].
+  - rewrite Hfl. cbn. split; [reflexivity|apply dirty_sync].
+  - destruct p; cbn [fst].
+    + split; [apply Hnr; discriminate|cbn; auto].
+    + split; [reflexivity|apply dirty_sync].
+    + split; [apply Hnr; discriminate|reflexivity]. Qed.
+
+Theorem sync_thm c outs ops o : reliable outs = true ->
+  let '(s0, tr0) := run (init c outs) ops in
+  let '(s1, r, es) := step s0 o in
+  flushing o (loop s0) = true -> buf (w s1) = [] /\ dirty_of false (all_evs tr0 ++ es) = false.
+Proof. intros Hr. pose proof (run_abs ops (init c outs) (init_RInv c outs Hr)) as H.
+  destruct (run (init c outs) ops) as [s0 tr0]. destruct H as (HR & Hc & Ha). cbn [init cfg] in Ha, Hc. rewrite abs_init in Ha.
+  pose proof (arun_FInv (eff_size c) ops ([], Fresh) false (AInv_init _) (fun _ => eq_refl)) as H. rewrite Ha in H.
+  destruct H as [HF HA]. pose proof (step_abs s0 o HR) as H. destruct (step s0 o) as [[s1 r] es].
+  destruct H as (_ & _ & Hs). rewrite Hc in Hs. intros Hfl. rewrite <- (loop_phase s0 HR) in Hfl.
+  pose proof (astep_sync_post (eff_size c) (abs s0) o _ HA HF Hfl) as H. rewrite Hs in H. cbn [abs fst] in H.
+  rewrite dirty_of_app. exact H. Qed.
+
+(* ---------- whole-write theorem for runs ---------- *)
+Theorem whole_thm c outs ops : reliable outs = true ->
+  let '(s, tr) := run (init c outs) ops in
+  Grp (accepted ops) (received (all_evs tr)) (buf (w s)) /\ length (buf (w s)) <= eff_size c.
+Proof. intros Hr. pose proof (run_abs ops (init c outs) (init_RInv c outs Hr)) as H.
+  destruct (run (init c outs) ops) as [s tr]. destruct H as (HR & Hc & Ha). cbn [init cfg] in Ha, Hc. rewrite abs_init in Ha.
+  split.
+  - assert (G0 : Grp [] [] (fst (([] : bytes), Fresh))) by (exists [], []; auto).
+    pose proof (arun_Grp (eff_size c) ops ([], Fresh) [] [] G0) as H. rewrite Ha in H. exact H.
+  - pose proof (arun_FInv (eff_size c) ops ([], Fresh) false (AInv_init _) (fun _ => eq_refl)) as H. rewrite Ha in H.
+    destruct H as [_ [H _]]. exact H. Qed.
+
+(* ---------- results: over a reliable sink nothing fails ---------- *)
+Lemma astep_res sz a o : res_ok o (snd (fst (astep sz a o))).
+Proof. destruct a as [b p]. destruct o; cbn; auto. destruct (is_running p); cbn; auto. destruct p; cbn; auto. Qed.
+Lemma arun_res sz ops : forall a, Forall2 res_ok ops (map fst (snd (arun sz a ops))).
+Proof. induction ops as [|o r IH]; intros a; cbn [arun]; [constructor|].
+  pose proof (astep_res sz a o) as H. destruct (astep sz a o) as [[a1 rs] es]. specialize (IH a1).
+  destruct (arun sz a1 r) as [a2 tr]. cbn in *. constructor; auto. Qed.
+Theorem results_thm c outs ops : reliable outs = true ->
+  Forall2 res_ok ops (map fst (snd (run (init c outs) ops))).
+Proof. intros Hr. pose proof (run_abs ops (init c outs) (init_RInv c outs Hr)) as H.
+  destruct (run (init c outs) ops) as [s tr]. destruct H as (_ & _ & Ha). cbn [init cfg] in Ha.
+  pose proof (arun_res (eff_size c) ops (abs (init c outs))) as H. rewrite Ha in H. exact H. Qed.
+
+(* ---------- lifecycle ---------- *)
+Lemma astep_phase sz a o : snd (fst (fst (astep sz a o))) = phase_step (snd a) o.
+Proof. destruct a as [b p]. destruct o; cbn; auto; destruct p; reflexivity. Qed.
+Lemma arun_phase sz ops : forall a, snd (fst (arun sz a ops)) = fold_left phase_step ops (snd a).
+Proof. induction ops as [|o r IH]; intros a; cbn [arun fold_left]; [reflexivity|].
+  pose proof (astep_phase sz a o) as H. destruct (astep sz a o) as [[a1 rs] es]. specialize (IH a1).
+  destruct (arun sz a1 r) as [a2 tr]. cbn in *. now rewrite IH, H. Qed.
+Theorem lifecycle_thm c outs ops : reliable outs = true ->
+  loop (fst (run (init c outs) ops)) = is_running (spec_phase ops).
+Proof. intros Hr. pose proof (run_abs ops (init c outs) (init_RInv c outs Hr)) as H.
+  destruct (run (init c outs) ops) as [s tr]. destruct H as (HR & _ & Ha). cbn [init cfg fst] in *.
+  pose proof (arun_phase (eff_size c) ops (abs (init c outs))) as H. rewrite Ha in H. cbn in H.
+  rewrite <- (loop_phase s HR). unfold spec_phase. now rewrite <- H. Qed.
+(* ---------- unreliable sink: stream integrity for EVERY outcome script (and both code versions) ---------- *)
+Lemma byte_eqb_refl b : Byte.eqb b b = true.
+Proof. now apply byte_eqb_eq. Qed.
+Lemma is_prefix_app a b : is_prefix a (a ++ b) = true.
+Proof. induction a as [|x r IH]; cbn; [reflexivity|]. now rewrite byte_eqb_refl, IH. Qed.
+Lemma wdeliver_app p es1 es2 :
+  wdeliver p (es1 ++ es2) = match wdeliver p es1 with Some p1 => wdeliver p1 es2 | None => None end.
+Proof. revert p. induction es1 as [|[q0 n|] r IH]; intros p; cbn [app wdeliver]; auto.
+  destruct ((n <=? length q0) && is_prefix (firstn n q0) p); auto. Qed.
+Lemma skipn_app_le {A} n (a b : list A) : n <= length a -> skipn n (a ++ b) = skipn n a ++ b.
+Proof. intros H. rewrite skipn_app. replace (n - length a) with 0 by lia. reflexivity. Qed.
+Lemma firstn_add {A} n m (l : list A) : firstn (n + m) l = firstn n l ++ firstn m (skipn n l).
+Proof. revert l. induction n as [|n IH]; intros l; cbn; [reflexivity|]. destruct l as [|x r]; cbn.
+  - now rewrite firstn_nil.
+  - now rewrite IH. Qed.
+
+(* one sink write of x[:n] out of pending x ++ y *)
+Lemma wdeliver_EW x n y : n <= length x -> wdeliver (x ++ y) [EW x n] = Some (skipn n x ++ y).
+Proof. intros H. cbn [wdeliver]. apply Nat.leb_le in H as H'. rewrite H'. cbn [andb].
+  rewrite <- (firstn_skipn n x) at 2. rewrite <- app_assoc, is_prefix_app. now rewrite skipn_app_le. Qed.
+
+Lemma sink_write_n k0 p : let '(n, e, es, k1) := sink_write k0 p in n <= length p /\ es = [EW p n].
+Proof. unfold sink_write. destruct (o_short (next_out k0)); split; auto; lia. Qed.
+
+Lemma bflush_weak b k0 : let '(e, b1, es, k1) := bflush b k0 in
+  forall x, wdeliver (buf b ++ x) es = Some (buf b1 ++ x).
+Proof. unfold bflush. destruct (negb (berr b =? 0)); [reflexivity|]. destruct (is_nil (buf b)) eqn:E; [reflexivity|].
+  pose proof (sink_write_n k0 (buf b)) as H. destruct (sink_write k0 (buf b)) as [[[n e] es] k1]. destruct H as [Hn ->].
+  destruct ((if (n <? length (buf b)) && (e =? 0) then 2 else e) =? 0) eqn:Z; intros x; cbn [set_buf buf].
+  - assert (n = length (buf b)).
+    { destruct (n <? length (buf b)) eqn:L; [|apply Nat.ltb_ge in L; lia]. exfalso.
+      destruct (e =? 0) eqn:Ee; cbn [andb] in Z; [discriminate|]. congruence. }
+    subst n. rewrite wdeliver_EW by lia. now rewrite skipn_all.
+  - now rewrite wdeliver_EW. Qed.
+
+Lemma bwrite_weak fuel : forall b k0 p, let '(nn, e, b2, es, k2) := bwrite fuel b k0 p in
+  nn <= length p /\ forall x, wdeliver (buf b ++ firstn nn p ++ x) es = Some (buf b2 ++ x).
+Proof. induction fuel as [|f IH]; intros b k0 p; cbn [bwrite].
+  - split; [lia|]. intros x. reflexivity.
+  - destruct ((avail b <? length p) && (berr b =? 0)) eqn:C.
+    + apply andb_true_iff in C as [C _]. apply Nat.ltb_lt in C. destruct (is_nil (buf b)) eqn:E.
+      * apply is_nil_true in E. pose proof (sink_write_n k0 p) as H. destruct (sink_write k0 p) as [[[n e] es] k1].
+        destruct H as [Hn ->]. specialize (IH (set_buf b (buf b) e) k1 (skipn n p)).
+        destruct (bwrite f (set_buf b (buf b) e) k1 (skipn n p)) as [[[[nn e2] b2] es2] k2]. destruct IH as [Hnn IH].
+        rewrite skipn_length in Hnn. split; [lia|]. intros x. cbn [set_buf buf] in IH. rewrite E in *. cbn [app] in *.
+        rewrite firstn_add, <- app_assoc. change (EW p n :: es2) with ([EW p n] ++ es2). rewrite wdeliver_app.
+        cbn [wdeliver]. apply Nat.leb_le in Hn as Hn'. rewrite Hn', is_prefix_app. cbn [andb].
+        rewrite skipn_app_le by (rewrite firstn_length; lia).
+        replace (skipn n (firstn n p)) with (@nil byte) by (symmetry; apply skipn_all2; rewrite firstn_length; lia).
+        apply IH.
+      * set (n := avail b) in *. pose proof (bflush_weak (set_buf b (buf b ++ firstn n p) (berr b)) k0) as H.
+        destruct (bflush (set_buf b (buf b ++ firstn n p) (berr b)) k0) as [[[e1 b1] es] k1]. cbn [set_buf buf] in H.
+        specialize (IH b1 k1 (skipn n p)). destruct (bwrite f b1 k1 (skipn n p)) as [[[[nn e2] b2] es2] k2].
+        destruct IH as [Hnn IH]. rewrite skipn_length in Hnn. split; [lia|]. intros x.
+        rewrite firstn_add, <- app_assoc, wdeliver_app, app_assoc, H. apply IH.
+    + destruct (negb (berr b =? 0)).
+      * split; [lia|]. intros x. reflexivity.
+      * split; [lia|]. intros x. rewrite firstn_all. cbn [set_buf buf wdeliver]. now rewrite app_assoc. Qed.
+
+Definition WI (s : st) : Prop := inited s = false -> buf (w s) = [].
+
+Lemma sync_weak s : WI s -> let '(e, s1, es) := bws_sync s in
+  WI s1 /\ inited s1 = inited s /\ wdeliver (buf (w s)) es = Some (buf (w s1)).
+Proof. intros HW. unfold bws_sync. destruct (inited s) eqn:E.
+  - pose proof (bflush_weak (w s) (k s)) as H. destruct (bflush (w s) (k s)) as [[[e1 b1] es1] k1].
+    unfold sink_sync. cbn [upd w inited]. split; [unfold WI; cbn; congruence|split; [exact E|]].
+    rewrite wdeliver_app. specialize (H []). rewrite !app_nil_r in H. rewrite H. reflexivity.
+  - unfold sink_sync. cbn [upd w inited app]. split; [exact HW|split; [exact E|reflexivity]]. Qed.
+
+Lemma step_weak fx s o : WI s -> let '(s1, r, es) := step_gen fx s o in
+  WI s1 /\ wstep (buf (w s)) o r es = Some (buf (w s1)).
+Proof. intros HW. destruct o as [bs| | |]; cbn [step_gen].
+  - (* Write *)
+    unfold bws_write. set (s0 := if inited s then s else initialize s).
+    assert (H0 : inited s0 = true /\ buf (w s0) = buf (w s)).
+    { unfold s0. destruct (inited s) eqn:E; [auto|]. cbn. split; [reflexivity|]. symmetry. now apply HW. }
+    destruct H0 as [Hin Hb]. rewrite <- Hb.
+    assert (Hupd : forall b1 k1, WI (upd s0 b1 k1)) by (intros; unfold WI; cbn; congruence).
+    set (pre := (avail (w s0) <? length bs) && negb (is_nil (buf (w s0)))).
+    assert (S1 : let '(e0, b1, es1, k1) := if pre then bflush (w s0) (k s0) else (0, w s0, [], k s0) in
+                 forall x, wdeliver (buf (w s0) ++ x) es1 = Some (buf b1 ++ x)).
+    { destruct pre; [apply bflush_weak|]. intros x. reflexivity. }
+    destruct (if pre then bflush (w s0) (k s0) else (0, w s0, [], k s0)) as [[[e0 b1] es1] k1].
+    destruct (negb (e0 =? 0)).
+    + split; [apply Hupd|]. cbn [wstep upd w Nat.leb firstn]. specialize (S1 []). now rewrite !app_nil_r in *.
+    + pose proof (bwrite_weak (wfuel bs) b1 k1 bs) as S2.
+      destruct (bwrite (wfuel bs) b1 k1 bs) as [[[[n e] b2] es2] k2]. destruct S2 as [Hn S2]. apply Nat.leb_le in Hn.
+      destruct (fx && stopped s0 && (e =? 0)).
+      * pose proof (bflush_weak b2 k2) as S3. destruct (bflush b2 k2) as [[[e3 b3] es3] k3].
+        split; [apply Hupd|]. cbn [wstep upd w]. rewrite Hn, wdeliver_app, S1. cbv beta iota.
+        specialize (S2 []). rewrite !app_nil_r in S2. rewrite wdeliver_app, S2. cbv beta iota.
+        specialize (S3 []). rewrite !app_nil_r in S3. exact S3.
+      * split; [apply Hupd|]. cbn [wstep upd w]. rewrite Hn, wdeliver_app, S1. cbv beta iota.
+        specialize (S2 []). rewrite !app_nil_r in S2. exact S2.
+  - pose proof (sync_weak s HW) as H. destruct (bws_sync s) as [[e s1] es]. destruct H as (H1 & _ & H2). auto.
+  - destruct (loop s).
+    + pose proof (sync_weak s HW) as H. destruct (bws_sync s) as [[e s1] es]. destruct H as (H1 & _ & H2). auto.
+    + auto.
+  - unfold bws_stop. destruct (negb (inited s)) eqn:E; [auto|]. destruct (stopped s).
+    + destruct fx; [|auto]. unfold sink_sync. cbn [upd w]. split; [exact HW|reflexivity].
+    + set (s1 := {| cfg := cfg s; inited := true; stopped := true; loop := false; w := w s; k := k s |}).
+      assert (HW1 : WI s1) by (unfold WI, s1; cbn; discriminate).
+      pose proof (sync_weak s1 HW1) as H. destruct (bws_sync s1) as [[e s2] es]. destruct H as (H1 & _ & H2). auto. Qed.
+
+Lemma run_weak fx ops : forall s, WI s -> wrun (buf (w s)) ops (snd (run_gen fx s ops)) = true.
+Proof. induction ops as [|o r IH]; intros s HW; cbn [run_gen]; [reflexivity|].
+  pose proof (step_weak fx s o HW) as H. destruct (step_gen fx s o) as [[s1 rs] es]. destruct H as [HW1 Hs].
+  specialize (IH s1 HW1). destruct (run_gen fx s1 r) as [s2 tr]. cbn [snd wrun] in *. now rewrite Hs. Qed.
+
+(* raw bufio (mode 1) *)
+Lemma bstep_weak bk o : let '(b2, k2, r, es) := bstep bk (match o with Write bs => Write bs | _ => Sync end) in
+  wstep (buf (fst bk)) (match o with Write bs => Write bs | _ => Sync end) r es = Some (buf b2).
+Proof. destruct bk as [b k0]. cbn [fst snd].
+  assert (F : let '(b2, k2, r, es) := bstep (b, k0) Sync in wstep (buf b) Sync r es = Some (buf b2)).
+  { cbn [bstep fst snd]. pose proof (bflush_weak b k0) as H. destruct (bflush b k0) as [[[e b2] es] k2].
+    cbn [wstep]. specialize (H []). now rewrite !app_nil_r in H. }
+  destruct o as [bs| | |]; try exact F. cbn [bstep fst snd].
+  pose proof (bwrite_weak (wfuel bs) b k0 bs) as H. destruct (bwrite (wfuel bs) b k0 bs) as [[[[n e] b2] es] k2].
+  destruct H as [Hn H]. cbn [wstep]. apply Nat.leb_le in Hn. rewrite Hn. specialize (H []). now rewrite !app_nil_r in H. Qed.
+Lemma brun_weak ops : forall bk, wrun (buf (fst bk)) (bops ops) (brun bk (bops ops)) = true.
+Proof. induction ops as [|o r IH]; intros bk; cbn [bops map brun]; [reflexivity|].
+  pose proof (bstep_weak bk o) as H. 
+  destruct (bstep bk (match o with Write bs => Write bs | _ => Sync end)) as [[[b2 k2] rs] es].
+  cbn [wrun]. rewrite H. exact (IH (b2, k2)). Qed.
+(* ---------- stream integrity as a statement about the bytes ---------- *)
+
+Lemma is_prefix_split a : forall p, is_prefix a p = true -> p = a ++ skipn (length a) p.
+Proof. induction a as [|x r IH]; intros p H; cbn in *; [reflexivity|]. destruct p as [|y p]; [discriminate|].
+  apply andb_true_iff in H as [H1 H2]. apply byte_eqb_eq in H1. subst y. cbn. f_equal. now apply IH. Qed.
+Lemma wdeliver_sound es : forall p p', wdeliver p es = Some p' -> p = concat (received es) ++ p'.
+Proof. induction es as [|[q0 n|] r IH]; intros p p' H; cbn [wdeliver] in H.
+  - injection H as ->. reflexivity.
+  - destruct ((n <=? length q0) && is_prefix (firstn n q0) p) eqn:C; [|discriminate].
+    apply andb_true_iff in C as [C1 C2]. apply Nat.leb_le in C1. apply is_prefix_split in C2.
+    rewrite firstn_length, Nat.min_l in C2 by exact C1. apply IH in H.
+    unfold received in *. cbn [map concat recv1 app]. rewrite <- !app_assoc. cbn [app]. rewrite <- H. exact C2.
+  - apply IH in H. exact H. Qed.
+Lemma wstep_sound p o r es p' : wstep p o r es = Some p' ->
+  p ++ consumed1 (o, (r, es)) = concat (received es) ++ p'.
+Proof. destruct o, r; cbn [wstep consumed1]; try discriminate; intros H;
+  try (apply wdeliver_sound in H; now rewrite app_nil_r).
+  destruct (n <=? length bs); [|discriminate]. now apply wdeliver_sound in H. Qed.
+
+Theorem stream_thm fx ops : forall s, WI s ->
+  let '(s1, tr) := run_gen fx s ops in
+  buf (w s) ++ consumed ops tr = concat (received (all_evs tr)) ++ buf (w s1).
+Proof. induction ops as [|o r IH]; intros s HW; cbn [run_gen].
+  - unfold consumed, all_evs, received. cbn. now rewrite app_nil_r.
+  - pose proof (step_weak fx s o HW) as H. destruct (step_gen fx s o) as [[s1 rs] es]. destruct H as [HW1 Hs].
+    specialize (IH s1 HW1). destruct (run_gen fx s1 r) as [s2 tr]. apply wstep_sound in Hs.
+    unfold consumed, all_evs in *. cbn [combine map concat snd]. rewrite received_app, concat_app, app_assoc, Hs.
+    rewrite <- !app_assoc. f_equal. exact IH. Qed.
+
+(* ---------- Stop may be called repeatedly (any sink, both code versions) ---------- *)
+Lemma stop_reaches_done fx s : stop_done (fst (fst (step_gen fx s Stop))).
+Proof. cbn [step_gen]. unfold bws_stop, stop_done. destruct (inited s) eqn:E; cbn [negb]; [|cbn; auto].
+  destruct (stopped s) eqn:St.
+  - destruct fx; cbn; auto.
+  - unfold bws_sync. cbn [inited w k]. destruct (bflush (w s) (k s)) as [[[e1 b1] es1] k1]. cbn. auto. Qed.
+Lemma stop_again fx s : stop_done s ->
+  let '(s1, r, es) := step_gen fx s Stop in
+  w s1 = w s /\ inited s1 = inited s /\ stopped s1 = stopped s /\ loop s1 = loop s /\
+  (es = [] \/ es = [ES]) /\ (reliable (k s) = true -> r = RStop 0).
+Proof. intros [H|H]; cbn [step_gen]; unfold bws_stop; rewrite H; cbn [negb].
+  - repeat split; auto.
+  - destruct (negb (inited s)); [repeat split; auto|]. destruct fx; [|repeat split; auto].
+    unfold sink_sync. cbn. repeat split; auto. intros Hr. now destruct (next_out_rel (k s) Hr) as [_ ->]. Qed.
+
+(* ---------- the model can express the failures ---------- *)
+Definition bytes_of (l : list byte) : bytes := l.
+(* bufio.Writer.Write alone (without zap's flush-before-write rule) splits a caller's write:
+   size 4, Write "abc", Write "de" -> the sink gets "abcd" and "e" stays behind *)
+Lemma naive_splits :
+  let s1 := fst (fst (naive_write (init 4 []) [x61; x62; x63])) in
+  naive_write s1 [x64; x65] =
+    (upd s1 {| size := 4; buf := [x65]; berr := 0 |} [], RW 2 0, [EW [x61; x62; x63; x64] 4]).
+Proof. vm_compute. reflexivity. Qed.
+Lemma naive_not_whole : ~ (forall s bs, RInv s ->
+  let '(s1, r, es) := naive_write s bs in
+  forall acc sw, Grp acc sw (buf (w s)) -> Grp (acc ++ [bs]) (sw ++ received es) (buf (w s1))).
+Proof. intros H.
+  set (s1 := fst (fst (naive_write (init 4 []) [x61; x62; x63]))).
+  assert (HR : RInv s1) by (unfold RInv; vm_compute; repeat split; auto; try lia; discriminate).
+  specialize (H s1 [x64; x65] HR). pose proof naive_splits as E. cbv zeta in E. fold s1 in E. rewrite E in H.
+  assert (G : Grp [[x61; x62; x63]] [] (buf (w s1))) by (exists [], [[x61; x62; x63]]; vm_compute; auto).
+  specialize (H _ _ G). destruct H as (g & r & Ha & Hs & Hb). cbn in Hs, Hb, Ha.
+  (* sink writes = ["abcd"] must be map concat g with concat g ++ r = ["abc"; "de"] *)
+  destruct g as [|g1 [|g2 g]]; cbn in Hs; try discriminate. injection Hs as Hs. cbn [concat] in Ha. rewrite app_nil_r in Ha.
+  destruct g1 as [|a1 g1]; [discriminate|]. cbn in Ha. injection Ha as <- Ha. cbn in Hs.
+  destruct g1 as [|a2 g1]; [discriminate|]. cbn in Ha. injection Ha as <- Ha. cbn in Hs. discriminate. Qed.
+
+(* the original code: Write x; Stop; Write y; Stop leaves y in the buffer after Stop has completed *)
+Definition sync_full_orig : Prop := forall c ops,
+  let '(s, tr) := run_gen false (init c []) (ops ++ [Stop]) in buf (w s) = [].
+Lemma stop_flushes_orig_refuted : ~ sync_full_orig.
+Proof. intros H. specialize (H 4%Z [Write [x61; x62]; Stop; Write [x63; x64]]). vm_compute in H. discriminate. Qed.
+Lemma stop_flushes_orig_witness :
+  snd (run_gen false (init 4 []) [Write [x61; x62]; Stop; Write [x63; x64]; Stop]) =
+    [(RW 2 0, []); (RStop 0, [EW [x61; x62] 2; ES]); (RW 2 0, []); (RStop 0, [])] /\
+  snd (run (init 4 []) [Write [x61; x62]; Stop; Write [x63; x64]; Stop]) =
+    [(RW 2 0, []); (RStop 0, [EW [x61; x62] 2; ES]); (RW 2 0, [EW [x63; x64] 2]); (RStop 0, [ES])].
+Proof. split; vm_compute; reflexivity. Qed.
+
+(* ---------- wire ---------- *)
+Lemma sx_eqb_refl s : sx_eqb s s = true.
+Proof. revert s. fix IH 1. intros [z|b|l]; cbn.
+  - apply Z.eqb_refl.
+  - now apply bytes_eqb_eq.
+  - induction l as [|a r IHr]; [reflexivity|]. now rewrite IH, IHr. Qed.
+Lemma sx_n_of_nat n : sx_n (of_nat n) = n.
+Proof. unfold sx_n, of_nat. cbn. apply Nat2Z.id. Qed.
+Lemma sx_bool_of_bool b : sx_bool (of_bool b) = b.
+Proof. destruct b; reflexivity. Qed.
+Lemma dec_enc_ev e : dec_ev (enc_ev e) = e.
+Proof. destruct e; cbn; [|reflexivity]. unfold dec_ev. cbn. now rewrite sx_n_of_nat. Qed.
+Lemma dec_enc_res r : dec_res (enc_res r) = r.
+Proof. destruct r; unfold dec_res; cbn; rewrite ?sx_n_of_nat, ?sx_bool_of_bool; reflexivity. Qed.
+Lemma dec_enc_tr tr : dec_tr (enc_tr tr) = tr.
+Proof. unfold dec_tr, enc_tr. cbn [sx_l]. rewrite map_map. rewrite <- (map_id tr) at 2. apply map_ext.
+  intros [r es]. cbn [fst snd]. unfold sx_nth. cbn [sx_l nth]. rewrite dec_enc_res. cbn [sx_l]. rewrite map_map.
+  f_equal. rewrite <- (map_id es) at 2. apply map_ext. apply dec_enc_ev. Qed.
+
+Theorem spec_model i : spec i (model i) = true.
+Proof. unfold spec, model. destruct (dec_case i) as [[c ops] outs]. destruct (mode_of i).
+  - unfold sx_nth. cbn [sx_l nth]. rewrite dec_enc_tr, sx_bool_of_bool, sx_eqb_refl.
+    cbn [andb negb]. rewrite andb_true_r. exact (brun_weak ops (_, outs)).
+  - pose proof (strong_ok_run c outs ops) as HS. pose proof (run_weak true ops (init c outs) (fun _ => eq_refl)) as HWk.
+    unfold run in *. destruct (run_gen true (init c outs) ops) as [s tr]. cbn [snd] in HWk.
+    unfold sx_nth. cbn [sx_l nth]. rewrite dec_enc_tr, sx_bool_of_bool, sx_eqb_refl. cbn [andb].
+    destruct (reliable outs); [now apply HS|exact HWk]. Qed.
+
+(* ---------- the fuel of bwrite is enough (so the out-of-fuel default is never observed) ---------- *)
+(* a sink never answers (0, nil) to a non-empty write: otherwise bufio.Writer.Write spins *)
+Definition out_wf (o : outcome) : bool := match o_short o with Some 0 => o_err o | _ => true end.
+Definition outs_wf (k0 : sk) : bool := forallb out_wf k0.
+Lemma outs_wf_tl k0 : outs_wf k0 = true -> outs_wf (tl k0) = true.
+Proof. destruct k0; cbn; [auto|]. intros H. apply andb_true_iff in H. tauto. Qed.
+Lemma bwrite_err f b k0 p : berr b <> 0 -> bwrite f b k0 p = (0, berr b, b, [], k0).
+Proof. intros H. apply Nat.eqb_neq in H. destruct f; cbn [bwrite]; [reflexivity|]. now rewrite H, andb_false_r. Qed.
+Definition need (b : bufio) (p : bytes) : nat := 2 * length p + (if is_nil (buf b) then 0 else 1) + 1.
+
+Lemma sink_write_wf k0 p : outs_wf k0 = true -> p <> [] ->
+  let '(n, e, es, k1) := sink_write k0 p in k1 = tl k0 /\ (e <> 0 \/ 1 <= n).
+Proof. intros Hk Hp. unfold sink_write. split; [reflexivity|]. destruct (o_err (next_out k0)) eqn:E; [left; discriminate|right].
+  assert (W : out_wf (next_out k0) = true).
+  { destruct k0; [reflexivity|]. cbn in *. apply andb_true_iff in Hk. tauto. }
+  unfold out_wf in W. destruct p; [congruence|]. destruct (o_short (next_out k0)) as [[|m]|]; cbn; try lia. congruence. Qed.
+
+Lemma bwrite_fuel f : forall b k0 p extra, outs_wf k0 = true -> need b p <= f ->
+  bwrite (f + extra) b k0 p = bwrite f b k0 p.
+Proof. induction f as [|f IH]; intros b k0 p extra Hk Hn; [unfold need in Hn; lia|].
+  cbn [Nat.add bwrite]. destruct ((avail b <? length p) && (berr b =? 0)) eqn:C; [|reflexivity].
+  apply andb_true_iff in C as [C1 C2]. apply Nat.ltb_lt in C1. apply Nat.eqb_eq in C2.
+  assert (Hp : p <> []) by (destruct p; cbn in C1; [lia|discriminate]).
+  unfold need in Hn. destruct (is_nil (buf b)) eqn:E.
+  - pose proof (sink_write_wf k0 p Hk Hp) as H. destruct (sink_write k0 p) as [[[n e] es] k1]. destruct H as [-> [He|Hn1]].
+    + rewrite !bwrite_err by (cbn; exact He). reflexivity.
+    + rewrite IH; [reflexivity|now apply outs_wf_tl|]. unfold need. cbn [set_buf buf]. rewrite E, skipn_length. lia.
+  - set (b0 := set_buf b (buf b ++ firstn (avail b) p) (berr b)).
+    assert (F : let '(e1, b1, es, k1) := bflush b0 k0 in k1 = tl k0 /\ (berr b1 <> 0 \/ buf b1 = [])).
+    { unfold bflush, b0. cbn [set_buf berr buf]. rewrite C2. cbn [Nat.eqb negb].
+      destruct (is_nil (buf b ++ firstn (avail b) p)) eqn:E2.
+      - apply is_nil_true in E2. apply app_eq_nil in E2 as [E2 _]. apply is_nil_false in E. congruence.
+      - unfold sink_write. 
+        destruct ((if (_ <? _) && (_ =? 0) then 2 else _) =? 0) eqn:Z; (split; [reflexivity|]); cbn [set_buf berr buf]; [right; reflexivity|left].
+        now apply Nat.eqb_neq in Z. }
+    destruct (bflush b0 k0) as [[[e1 b1] es] k1]. destruct F as [-> [He|Hb]].
+    + rewrite !bwrite_err by exact He. reflexivity.
+    + rewrite IH; [reflexivity|now apply outs_wf_tl|]. unfold need. rewrite Hb. cbn [is_nil]. rewrite skipn_length. lia.
+Qed.
+Corollary wfuel_enough b k0 p extra : outs_wf k0 = true ->
+  bwrite (wfuel p + extra) b k0 p = bwrite (wfuel p) b k0 p.
+Proof. intros Hk. apply bwrite_fuel; [exact Hk|]. unfold need, wfuel. destruct (is_nil (buf b)); lia. Qed.
+
+(* ---------- corollaries over histories: stream equality, crash points, acknowledged data ---------- *)
+Lemma concat_map_concat {A} (g : list (list (list A))) : concat (map (@concat A) g) = concat (concat g).
+Proof. induction g as [|a r IH]; cbn; [reflexivity|]. now rewrite concat_app, IH. Qed.
+Lemma Grp_stream acc sw b : Grp acc sw b -> concat sw ++ b = concat acc.
+Proof. intros (g & r & -> & -> & ->). now rewrite concat_app, concat_map_concat. Qed.
+
+Theorem stream_rel_thm c outs ops : reliable outs = true ->
+  let '(s, tr) := run (init c outs) ops in
+  concat (received (all_evs tr)) ++ buf (w s) = concat (accepted ops).
+Proof. intros Hr. pose proof (whole_thm c outs ops Hr) as H. destruct (run (init c outs) ops) as [s tr].
+  destruct H as [H _]. now apply Grp_stream. Qed.
+
+Lemma run_app fx a : forall s b,
+  run_gen fx s (a ++ b) =
+    let '(s1, t1) := run_gen fx s a in let '(s2, t2) := run_gen fx s1 b in (s2, t1 ++ t2).
+Proof. induction a as [|o r IH]; intros s b; cbn [app run_gen].
+  - destruct (run_gen fx s b) as [s2 t2]. reflexivity.
+  - destruct (step_gen fx s o) as [[s1 rs] es]. rewrite IH. destruct (run_gen fx s1 r) as [s2 t1].
+    destruct (run_gen fx s2 b) as [s3 t2]. reflexivity. Qed.
+Lemma all_evs_app a b : all_evs (a ++ b) = all_evs a ++ all_evs b.
+Proof. unfold all_evs. now rewrite map_app, concat_app. Qed.
+
+(* a crash after any prefix ops1 of any history: what the sink holds then is whole-write aligned
+   (whole_thm for ops1) and everything the sink holds later extends it *)
+Theorem crash_thm c outs ops1 ops2 : reliable outs = true ->
+  let '(s1, tr1) := run (init c outs) ops1 in
+  let '(s2, tr2) := run (init c outs) (ops1 ++ ops2) in
+  Grp (accepted ops1) (received (all_evs tr1)) (buf (w s1)) /\
+  exists more, tr2 = tr1 ++ more /\ received (all_evs tr2) = received (all_evs tr1) ++ received (all_evs more).
+Proof. intros Hr. pose proof (whole_thm c outs ops1 Hr) as H. unfold run in *. rewrite run_app.
+  destruct (run_gen true (init c outs) ops1) as [s1 tr1]. destruct (run_gen true s1 ops2) as [s2 t2].
+  split; [apply H|]. exists t2. split; [reflexivity|]. now rewrite all_evs_app, received_app. Qed.
+
+(* everything accepted before a Sync / processed tick / Stop is in the sink at every later point *)
+Theorem acked_thm c outs ops o ops2 : reliable outs = true ->
+  flushing o (loop (fst (run (init c outs) ops))) = true ->
+  let '(s2, tr2) := run (init c outs) (ops ++ o :: ops2) in
+  exists more, concat (received (all_evs tr2)) = concat (accepted ops) ++ more.
+Proof. intros Hr Hfl. pose proof (sync_thm c outs ops o Hr) as Hs. pose proof (stream_rel_thm c outs (ops ++ [o]) Hr) as Hst.
+  unfold run in *. change (o :: ops2) with ([o] ++ ops2). rewrite app_assoc, run_app, run_app. rewrite run_app in Hst.
+  destruct (run_gen true (init c outs) ops) as [s0 tr0]. cbn [fst] in Hfl. cbn [run_gen] in *. unfold step in Hs.
+  destruct (step_gen true s0 o) as [[s1 r] es]. destruct (Hs Hfl) as [Hb _].
+  destruct (run_gen true s1 ops2) as [s2 t2]. rewrite Hb, app_nil_r in Hst.
+  exists (concat (received (all_evs t2))). rewrite all_evs_app, received_app, concat_app, Hst.
+  rewrite accepted_app. unfold accepted at 2. destruct o; cbn in Hfl |- *; try discriminate; now rewrite !app_nil_r. Qed.
+
+(* from a fresh syncer, any sink: bytes consumed = bytes in the sink ++ bytes still buffered *)
+Theorem faulty_stream_thm fx c outs ops :
+  let '(s, tr) := run_gen fx (init c outs) ops in
+  consumed ops tr = concat (received (all_evs tr)) ++ buf (w s).
+Proof. pose proof (stream_thm fx ops (init c outs) (fun _ => eq_refl)) as H.
+  destruct (run_gen fx (init c outs) ops) as [s tr]. exact H. Qed.
+
+Theorem stop_idempotent_thm fx s :
+  let s1 := fst (fst (step_gen fx s Stop)) in
+  let '(s2, r, es) := step_gen fx s1 Stop in
+  w s2 = w s1 /\ inited s2 = inited s1 /\ stopped s2 = stopped s1 /\ loop s2 = loop s1 /\
+  (es = [] \/ es = [ES]) /\ (reliable (k s1) = true -> r = RStop 0).
+Proof. intros s1. apply stop_again. apply stop_reaches_done. Qed.
+
+(* ---------- soundness of the executable oracle: what "S1" on an observation means ---------- *)
+(* independent of the model: if the oracle accepts (ops, trace, alive) -- e.g. the trace recorded
+   from the real implementation -- then that trace has the property *)
+Lemma strip_sound q0 : forall x q', strip q0 x = Some q' -> exists g, q0 = g ++ q' /\ concat g = x.
+Proof. induction q0 as [|b r IH]; intros x q' H.
+  - cbn in H. destruct (is_nil x) eqn:E; [|discriminate]. injection H as <-. apply is_nil_true in E. exists []. auto.
+  - cbn [strip] in H. destruct (is_nil x) eqn:E.
+    + injection H as <-. apply is_nil_true in E. exists []. auto.
+    + destruct ((length b <=? length x) && bytes_eqb b (firstn (length b) x)) eqn:C; [|discriminate].
+      apply andb_true_iff in C as [_ C]. apply bytes_eqb_eq in C. destruct (IH _ _ H) as (g & -> & Hg).
+      exists (b :: g). split; [reflexivity|]. cbn. rewrite Hg. rewrite C at 1. apply firstn_skipn. Qed.
+
+Lemma deliver_sound es : forall q0 d q' d', deliver q0 d es = Some (q', d') ->
+  exists gs, q0 = concat gs ++ q' /\ received es = map (@concat byte) gs.
+Proof. induction es as [|[p n|] r IH]; intros q0 d q' d' H; cbn [deliver] in H.
+  - injection H as <- <-. exists []. auto.
+  - destruct (n =? length p) eqn:E; [|discriminate]. apply Nat.eqb_eq in E. destruct (strip q0 p) as [q1|] eqn:S; [|discriminate].
+    destruct (strip_sound _ _ _ S) as (g & -> & Hg). destruct (IH _ _ _ _ H) as (gs & -> & Hr).
+    exists (g :: gs). cbn [concat map]. split; [now rewrite app_assoc|].
+    unfold received in *. cbn [map concat recv1 app]. subst n. now rewrite firstn_all, Hr, Hg.
+  - exact (IH _ _ _ _ H). Qed.
+
+(* invariant: accepted so far = groups delivered ++ queue; sink writes = the groups; bound; phase *)
+Definition OG (sz : nat) (acc sw : list bytes) (p : phase) (s : ost) : Prop :=
+  (exists groups, acc = concat groups ++ q s /\ sw = map (@concat byte) groups) /\ qlen (q s) <= sz /\ ph s = p.
+
+Lemma OG_deliver acc sw qin d es q' d' :
+  (exists groups, acc = concat groups ++ qin /\ sw = map (@concat byte) groups) ->
+  deliver qin d es = Some (q', d') ->
+  exists groups, acc = concat groups ++ q' /\ sw ++ received es = map (@concat byte) groups.
+Proof. intros (g & Ha & Hs) H. destruct (deliver_sound _ _ _ _ _ H) as (gs & -> & Hr).
+  exists (g ++ gs). rewrite concat_app, map_app, Hs, Hr, Ha. now rewrite app_assoc. Qed.
+
+Lemma flushed_inv o p s' : flushed o p = Some s' ->
+  exists q1, o = Some (q1, false) /\ all_empty q1 = true /\ s' = {| q := q1; dirty := false; ph := p |}.
+Proof. unfold flushed. destruct o as [[q1 d1]|]; [|discriminate]. destruct (all_empty q1) eqn:E; [|discriminate].
+  destruct d1; cbn; [discriminate|]. intros H. injection H as <-. eauto. Qed.
+
+Lemma ostep_sound sz acc sw s o r es s' : OG sz acc sw (ph s) s -> ostep sz s o r es = Some s' ->
+  OG sz (acc ++ acc1 o) (sw ++ received es) (phase_step (ph s) o) s' /\ res_ok o r.
+Proof. intros (HG & Hl & _) H.
+  assert (FL : forall p, flushed (deliver (q s) (dirty s) es) p = Some s' ->
+               OG sz (acc ++ []) (sw ++ received es) p s').
+  { intros p Hf. destruct (flushed_inv _ _ _ Hf) as (q1 & Hd & He & ->).
+    destruct (OG_deliver acc sw _ _ _ _ _ HG Hd) as (g & Ha & Hs). unfold OG; cbn [q ph].
+    rewrite app_nil_r. split; [eauto|]. split; [|reflexivity]. apply all_empty_concat in He. unfold qlen. rewrite He. cbn. lia. }
+  destruct o as [bs| | |], r; cbn [ostep] in H; try discriminate.
+  - destruct ((n =? length bs) && (err =? 0)) eqn:C; [|discriminate]. apply andb_true_iff in C as [C1 C2].
+    apply Nat.eqb_eq in C1, C2. destruct (deliver (q s ++ [bs]) (dirty s) es) as [[q1 d1]|] eqn:D; [|discriminate].
+    destruct (qlen q1 <=? sz) eqn:L; [|discriminate]. injection H as <-. apply Nat.leb_le in L.
+    assert (HG' : exists groups, acc ++ [bs] = concat groups ++ (q s ++ [bs]) /\ sw = map (@concat byte) groups).
+    { destruct HG as (g & -> & Hs). exists g. now rewrite app_assoc. }
+    destruct (OG_deliver _ sw _ _ _ _ _ HG' D) as (g & Ha & Hs).
+    split; [|cbn; auto]. unfold OG; cbn [q ph acc1 phase_step]. split; [eauto|]. split; [exact L|]. destruct (ph s); reflexivity.
+  - destruct (err =? 0) eqn:E; [|discriminate]. apply Nat.eqb_eq in E. split; [|exact E]. cbn [acc1 phase_step]. now apply FL.
+  - split; [|exact I]. cbn [acc1 phase_step]. destruct (ph s) eqn:P.
+    + destruct (negb delivered && is_nil es) eqn:C; [|discriminate]. injection H as <-. apply andb_true_iff in C as [_ C].
+      apply is_nil_true in C. subst es. unfold received; cbn. rewrite !app_nil_r. unfold OG. rewrite P. auto.
+    + destruct delivered; [|discriminate]. now apply FL.
+    + destruct (negb delivered && is_nil es) eqn:C; [|discriminate]. injection H as <-. apply andb_true_iff in C as [_ C].
+      apply is_nil_true in C. subst es. unfold received; cbn. rewrite !app_nil_r. unfold OG. rewrite P. auto.
+  - destruct (err =? 0) eqn:E; [|discriminate]. apply Nat.eqb_eq in E. split; [|exact E]. cbn [acc1].
+    replace (phase_step (ph s) Stop) with (match ph s with Running => Stopped | p => p end) by (destruct (ph s); reflexivity).
+    now apply FL.
+Qed.
+
+Lemma orun_sound sz ops : forall tr acc sw s s', OG sz acc sw (ph s) s -> orun sz s ops tr = Some s' ->
+  OG sz (acc ++ accepted ops) (sw ++ received (all_evs tr)) (fold_left phase_step ops (ph s)) s' /\
+  Forall2 res_ok ops (map fst tr).
+Proof. induction ops as [|o r IH]; intros tr acc sw s s' HG H; destruct tr as [|[rs es] tr]; cbn [orun] in H; try discriminate.
+  - injection H as <-. unfold accepted, all_evs, received. cbn. rewrite !app_nil_r. split; [exact HG|constructor].
+  - destruct (ostep sz s o rs es) as [s1|] eqn:S; [|discriminate]. destruct (ostep_sound _ _ _ _ _ _ _ _ HG S) as [HG1 Hr].
+    assert (P1 : ph s1 = phase_step (ph s) o) by (destruct HG1 as (_ & _ & ?); assumption).
+    rewrite <- P1 in HG1. destruct (IH _ _ _ _ _ HG1 H) as [HG2 Hrs].
+    unfold accepted, all_evs in *. cbn [map concat fold_left fst snd]. rewrite received_app, !app_assoc, <- P1.
+    split; [exact HG2|constructor; assumption]. Qed.
+
+Theorem oracle_sound c ops tr alive : strong_ok c ops tr alive = true ->
+  (exists groups rest, accepted ops = concat groups ++ rest /\ received (all_evs tr) = map (@concat byte) groups /\
+                       length (concat rest) <= eff_size c) /\
+  Forall2 res_ok ops (map fst tr) /\ alive = is_running (spec_phase ops).
+Proof. unfold strong_ok. destruct (orun (eff_size c) oinit ops tr) as [s'|] eqn:H; [|discriminate]. intros Ha.
+  assert (G0 : OG (eff_size c) [] [] (ph oinit) oinit).
+  { unfold OG, oinit, qlen; cbn. split; [exists []; auto|]. split; [lia|reflexivity]. }
+  destruct (orun_sound _ _ _ _ _ _ _ G0 H) as [((g & Hacc & Hsw) & Hl & Hp) Hr]. cbn [app] in *.
+  split; [exists g, (q s'); auto|]. split; [exact Hr|]. apply eqb_prop in Ha. rewrite Ha, Hp. reflexivity. Qed.
+
+Theorem weak_oracle_sound ops : forall tr p, wrun p ops tr = true ->
+  exists p', p ++ consumed ops tr = concat (received (all_evs tr)) ++ p'.
+Proof. induction ops as [|o r IH]; intros tr p H; destruct tr as [|[rs es] tr]; cbn [wrun] in H; try discriminate.
+  - exists p. unfold consumed, all_evs, received. cbn. now rewrite app_nil_r.
+  - destruct (wstep p o rs es) as [p1|] eqn:S; [|discriminate]. apply wstep_sound in S. destruct (IH _ _ H) as (p' & Hp).
+    exists p'. unfold consumed, all_evs in *. cbn [combine map concat snd]. rewrite received_app, concat_app, app_assoc, S.
+    rewrite <- !app_assoc. f_equal. exact Hp. Qed.
